@@ -22,6 +22,8 @@
 #include <csignal>
 #include <unistd.h>
 #include <sys/wait.h>
+#include <cstring>
+#include "watchdog.h"
 using namespace photon;
 
 struct Rec { int kind; int k; int a; };
@@ -62,19 +64,14 @@ static void dump_log() {
     static const char* nm[] = {"submit c", "submit a", "begin", "end", "callret", "deleted", "destroy_begin", "destroy_end", "twice"};
     for (long i = 0; i < n; ++i) { auto& r = logbuf[i]; if (r.kind == DBEGIN || r.kind == DEND) printf("%s\n", nm[r.kind]); else printf("%s %d\n", nm[r.kind], r.k); }
 }
-static long alarm_seen = -1; static int alarm_ticks = 0;
-// every 10 s: no event logged since the last tick = hung; still progressing after 300 s = the machine is too loaded (inconclusive)
-static void on_alarm(int) {
-    long p = logpos.load();
-    if (p == alarm_seen) { dump_log(); printf("result hung\n"); fflush(stdout); _exit(0); }
-    alarm_seen = p;
-    if (++alarm_ticks >= 30) { dump_log(); printf("result slow\n"); fflush(stdout); _exit(0); }
-    alarm(10);
-}
+// hang / slow verdicts: watchdog.h (no event logged in 2 windows of 10 s in which the machine ran every thread = hung; no verdict after 300 s =
+// the machine is too loaded: result slow, inconclusive)
+static long wd_progress() { return logpos.load(); }
+static void on_verdict(const char* result) { dump_log(); wd::print_diag(); printf("%s\n", result); fflush(stdout); _exit(0); }
 static void on_segv(int sig) { dump_log(); printf("result crashed signal=%d\n", sig); fflush(stdout); _exit(0); }
 
 static int run_program(const std::vector<std::string>& lines) {
-    signal(SIGALRM, on_alarm); alarm(10); signal(SIGSEGV, on_segv); signal(SIGABRT, on_segv);
+    wd::start(wd_progress, on_verdict); signal(SIGSEGV, on_segv); signal(SIGABRT, on_segv);
     set_log_output(log_output_null);
     logbuf = new Rec[MAXLOG];
     int nv = 1, mode = -1, joiners = 0; size_t ring = 65536;
